@@ -472,8 +472,9 @@ pub const WORD_NESTERS: &[(&str, &str, &str, &str)] = &[
 ];
 
 /// (d) each nestable construct and each ordered pair of them, nested to depth {1,...,64}.
-pub fn nestings() -> Vec<CorpusCase> {
-    let depths = [1usize, 2, 4, 8, 16, 32, 64];
+pub fn nestings(max_depth: usize) -> Vec<CorpusCase> {
+    let all_depths = [1usize, 2, 4, 8, 16, 32, 64];
+    let depths: Vec<usize> = all_depths.iter().copied().filter(|d| *d <= max_depth).collect();
     let mut out = vec![];
     for (a, ao, ac) in NESTERS {
         for &d in &depths {
@@ -543,7 +544,7 @@ pub fn nestings() -> Vec<CorpusCase> {
 pub fn all_cases(tier: Tier) -> Vec<CorpusCase> {
     let mut v = substitutions(tier);
     v.extend(mutations(tier));
-    v.extend(nestings());
+    v.extend(nestings(tier.pick(8, 64)));
     v
 }
 
@@ -556,7 +557,7 @@ pub fn lines(tier: Tier) -> Vec<String> {
         Tier::Thorough => all_cases(tier),
         Tier::Quick => {
             let mut v: Vec<CorpusCase> = substitutions(tier).into_iter().filter(|c| c.tags.iter().filter(|t| t.starts_with("slot:")).count() <= 1).collect();
-            v.extend(nestings());
+            v.extend(nestings(tier.pick(8, 64)));
             v
         }
     };
